@@ -57,6 +57,21 @@ def _captured_log(self, level, msg, args, exc_info=None, extra=None, stack_info=
     CAPTURE.records.append((self.name, level, msg, args))
 
 
+_NAME_HASH = {}
+
+
+def _target_hash(t):
+    from vf import q
+    with q.notrace():
+        name = t.name
+        h = _NAME_HASH.get(name)
+        if h is None:
+            import zlib
+            h = zlib.crc32(name.encode("utf-8"))
+            _NAME_HASH[name] = h
+        return h
+
+
 def raw(cmd):
     f = cmd.callback
     return getattr(f, "__wrapped__", f)
@@ -124,6 +139,11 @@ class World:
         click.secho = self._echo
         click.echo_via_pager = self._echo
         click.confirm = self._confirm
+        # Target hashes by identity, so the iteration order of gwf's sets of targets depends on memory
+        # addresses: make it a function of the (unique) name, so that symbolic runs and replays see one order
+        from gwf.core import Target
+        _REAL.setdefault("target_hash", Target.__hash__)
+        Target.__hash__ = _target_hash
         root = logging.getLogger("gwf")
         root.setLevel(logging.INFO)
         _REAL.setdefault("_log", logging.Logger._log)
@@ -143,6 +163,8 @@ class World:
             click.echo_via_pager = _REAL["pager"]
             click.confirm = _REAL["confirm"]
             logging.Logger._log = _REAL["_log"]
+            from gwf.core import Target
+            Target.__hash__ = _REAL["target_hash"]
         self.installed = False
 
     def _echo(self, message=None, *a, **kw):
